@@ -758,8 +758,8 @@ def run(ctx):
     rng = ctx.rng
     cases = corpus_cases()
     cases += list(exhaustive_chain_orders())
-    nplain = ctx.budget(1800, 12000)
-    nchain = ctx.budget(300, 2000)
+    nplain = ctx.budget(1800, 5000)     # per-case cost grows with the number of classes ever created
+    nchain = ctx.budget(300, 800)
     maxops = 20
     for _ in range(nplain):
         cases.append(gen_plain(rng, maxops))
